@@ -578,3 +578,135 @@ pub proof fn theorem_chunking_malformed(xs: Seq<Seq<char>>, b: int, chunks: Seq<
     assert(concat_upto(chunks, 0) =~= Seq::<u8>::empty());
     lemma_run_bad(xs, b, chunks, 0);
 }
+
+// ---- C09, last clause: printing the collected entries of a stream of canonical records reproduces the stream
+/// a printed text ends in a newline that is not preceded by a carriage return
+pub open spec fn good_tail(t: Seq<char>) -> bool { t.len() >= 2 && t.last() == '\n' && t[t.len() - 2] != '\r' }
+pub proof fn lemma_tail_concat(a: Seq<char>, b: Seq<char>)
+    requires good_tail(b)
+    ensures good_tail(a + b)
+{
+    let t = a + b;
+    assert(t.last() == b.last());
+    assert(t[t.len() - 2] == b[b.len() - 2]);
+}
+pub proof fn lemma_kv_tail(name: Seq<char>, val: Seq<char>)
+    requires !val.contains('\r')
+    ensures good_tail(kv_line(name, val))
+{
+    let t = kv_line(name, val);
+    assert(t.len() == name.len() + 1 + val.len() + 1);
+    assert(t.last() == '\n');
+    if val.len() == 0 { assert(t[t.len() - 2] == '='); }
+    else { assert(t[t.len() - 2] == val[val.len() - 1]); if t[t.len() - 2] == '\r' { assert(val.contains('\r')); } }
+}
+pub proof fn lemma_lines_of_tail(v: SummaryVariable, val: VV)
+    requires valid_value(v, val)
+    ensures good_tail(lines_of(v, val))
+{
+    match val {
+        VV::S(s) => { lemma_kv_tail(name_of(v), s); }
+        VV::I(i) => { axiom_i64_text(i as i64); lemma_kv_tail(name_of(v), i64_text(i)); }
+        VV::A(a) => {
+            let n = a.len() as int;
+            assert(no_nl(a[n - 1]));
+            lemma_kv_tail(name_of(v), a[n - 1]);
+            lemma_tail_concat(a_lines(name_of(v), a, n - 1), kv_line(name_of(v), a[n - 1]));
+        }
+    }
+}
+pub proof fn lemma_render_from_tail(m: Map<SummaryVariable, VV>, keys: Seq<SummaryVariable>, i: int)
+    requires 0 <= i < keys.len(), forall|j: int| 0 <= j < keys.len() ==> m.contains_key(#[trigger] keys[j]) && valid_value(keys[j], m[keys[j]])
+    ensures good_tail(render_from(m, keys, i))
+    decreases keys.len() - i
+{
+    lemma_lines_of_tail(keys[i], m[keys[i]]);
+    if i + 1 < keys.len() {
+        lemma_render_from_tail(m, keys, i + 1);
+        lemma_tail_concat(lines_of(keys[i], m[keys[i]]), render_from(m, keys, i + 1));
+    } else {
+        assert(render_from(m, keys, i + 1) =~= Seq::<char>::empty());
+        assert(render_from(m, keys, i) =~= lines_of(keys[i], m[keys[i]]));
+    }
+}
+pub proof fn lemma_render_tail(m: Map<SummaryVariable, VV>)
+    requires canonical(m)
+    ensures good_tail(render(m))
+{
+    let keys = present_vars(m.dom());
+    lemma_present_vars(m.dom());
+    assert(m.dom().contains(SummaryVariable::Pkgname));
+    assert(keys.contains(SummaryVariable::Pkgname));
+    assert(keys.len() > 0);
+    assert forall|j: int| 0 <= j < keys.len() implies m.contains_key(#[trigger] keys[j]) && valid_value(keys[j], m[keys[j]]) by {
+        assert(m.dom().contains(keys[j]));
+    }
+    lemma_render_from_tail(m, keys, 0);
+}
+/// a final newline does not change the lines of a text that ends in neither a newline nor a carriage return
+pub proof fn lemma_lines_final_nl(x: Seq<char>)
+    requires x.len() > 0, x.last() != '\n', x.last() != '\r'
+    ensures lines_spec(x + seq!['\n']) == lines_spec(x)
+    decreases x.len()
+{
+    let y = x + seq!['\n'];
+    let i = first_index_of(x, '\n');
+    lemma_first_index_of(x, '\n');
+    lemma_first_index_of(y, '\n');
+    if i < 0 {
+        // the only newline of y is the appended one
+        assert(forall|k: int| 0 <= k < x.len() ==> y[k] == x[k]);
+        assert(y[x.len() as int] == '\n');
+        assert(first_index_of(y, '\n') == x.len());
+        assert(y.take(x.len() as int) =~= x);
+        assert(y.skip(x.len() as int + 1) =~= Seq::<char>::empty());
+        assert(lines_spec(Seq::<char>::empty()) =~= Seq::<Seq<char>>::empty());
+        assert(lines_spec(y) =~= seq![strip_cr(x)]);
+    } else {
+        assert(y[i] == x[i]);
+        assert(forall|k: int| 0 <= k < i ==> y[k] == x[k]);
+        assert(first_index_of(y, '\n') == i);
+        assert(i < x.len() - 1);
+        let rest = x.skip(i + 1);
+        assert(y.take(i) =~= x.take(i));
+        assert(y.skip(i + 1) =~= rest + seq!['\n']);
+        assert(rest.last() == x.last());
+        lemma_lines_final_nl(rest);
+    }
+}
+/// a stream of canonical records: record i is the printed form of the canonical entry ms[i] without its final newline
+pub open spec fn canon_stream(xs: Seq<Seq<char>>, ms: Seq<Map<SummaryVariable, VV>>) -> bool {
+    xs.len() == ms.len() && forall|i: int| 0 <= i < xs.len() ==>
+        rec_shape(#[trigger] xs[i]) && canonical(ms[i]) && xs[i] + seq!['\n'] == render(ms[i])
+}
+pub proof fn lemma_render_all_seg(xs: Seq<Seq<char>>, ms: Seq<Map<SummaryVariable, VV>>, n: int)
+    requires canon_stream(xs, ms), 0 <= n <= xs.len()
+    ensures render_all(ms, n) == seg(xs, 0, n)
+    decreases n
+{
+    if n > 0 {
+        lemma_render_all_seg(xs, ms, n - 1);
+        assert(rec_shape(xs[n - 1]));
+        assert(render(ms[n - 1]) + seq!['\n'] =~= xs[n - 1] + NLNL());
+        assert(render_all(ms, n) =~= render_all(ms, n - 1) + (render(ms[n - 1]) + seq!['\n']));
+        assert(seg(xs, 0, n) =~= seg(xs, 0, n - 1) + (xs[n - 1] + NLNL()));
+    }
+}
+/// C09, last clause: a stream of canonical records is well formed, its entries are those records' values, and printing the
+/// collected entries (Display for SummaryStream == render_all, proved on the real function) reproduces the stream
+pub proof fn theorem_stream_print(xs: Seq<Seq<char>>, ms: Seq<Map<SummaryVariable, VV>>)
+    requires canon_stream(xs, ms)
+    ensures wf_stream(xs), parsed(xs, xs.len() as int) == ms, render_all(ms, ms.len() as int) == stream_chars(xs)
+{
+    assert forall|i: int| 0 <= i < xs.len() implies parse_entry(#[trigger] xs[i]) == Ok::<Map<SummaryVariable, VV>, PEK>(ms[i]) by {
+        assert(rec_shape(xs[i]));
+        lemma_render_tail(ms[i]);
+        let x = xs[i];
+        let t = x + seq!['\n'];
+        assert(t[t.len() - 2] == x[x.len() - 1]);
+        lemma_lines_final_nl(x);
+        theorem_parse_render(ms[i]);
+    }
+    assert(parsed(xs, xs.len() as int) =~= ms);
+    lemma_render_all_seg(xs, ms, xs.len() as int);
+}
